@@ -392,7 +392,7 @@ func (b *Built) commandFn(n int) getoptions.CommandFn {
 			names := append([]Tok{o.Name}, o.Aliases...)
 			for _, nm := range names {
 				s := FromAtoms(nm)
-				if !reflect.DeepEqual(view.Value(s), b.PtrValue(oi-1)) {
+				if !sameValue(o.Kind, view.Value(s), b.PtrValue(oi-1)) {
 					r.ViewOK = false
 				}
 				if view.Called(s) != b.Root0Called(oi-1) || view.CalledAs(s) != b.Root0CalledAs(oi-1) {
